@@ -9,6 +9,7 @@ import (
 	"fmt"
 	"os"
 	"path/filepath"
+	"strings"
 	"time"
 )
 
@@ -153,6 +154,27 @@ outer:
 							hangs++ // two hangs are evidence enough; do not wait for more watchdogs
 						}
 						tagIt(t, fmt.Sprintf("run after %d edits (short-circuit status)", nedit))
+					}
+					// objects lost from the cache: a directory checkout with entries that fail while others
+					// are still queued must end with an error, not hang
+					if !failing && hangs < 2 {
+						snap, _ := snapCache(p.CacheDir)
+						lost := 0
+						for _, ob := range snap {
+							if !strings.HasPrefix(string(ob.Data), "{\"path\"") && rr.chance(1, 6) && lost < 8 {
+								os.Remove(cachePathOf(p.CacheDir, ob.Digest))
+								lost++
+							}
+						}
+						if lost > 0 {
+							rmrf(abs)
+							p.Timeout = 40 * time.Second
+							t, _ = p.do(Cmd{Kind: "checkout", Copy: rr.chance(1, 2)}, nil, want(5, 24), nil, nil)
+							if p.Hung {
+								hangs++
+							}
+							tagIt(t, fmt.Sprintf("checkout with %d objects lost from the cache", lost))
+						}
 					}
 					rmrf(base)
 				}
